@@ -32,6 +32,7 @@
 import DfolsVerif.Proofs.Validate
 import DfolsVerif.Proofs.ParamTable
 import DfolsVerif.Proofs.GenSpec
+import DfolsVerif.Gen.ExitSites
 
 namespace Dfols
 namespace C07
@@ -445,6 +446,38 @@ theorem C07_old_nine_argument_call (m : Msg) : inputErrorResult exitTableOld m =
 theorem C07_old_missing_constants :
     "EXIT_TR_INCREASE_WARNING" ∈ exitTableOld.userGuideExits ∧ exitTableOld.exposes "EXIT_TR_INCREASE_WARNING" = false ∧
     "EXIT_EVAL_ERROR" ∈ exitTableOld.userGuideExits ∧ exitTableOld.exposes "EXIT_EVAL_ERROR" = false := by
+  decide +kernel
+
+/-! ### layer G: the input checks themselves (generated table of `ExitInformation` creation sites) -/
+
+/-- every `ExitInformation(EXIT_INPUT_ERROR, …)` of /repo, in source order, with the tests it stands under
+    (regenerated from the AST on every run): the eighteen checks, each behind `exit_info is None` (first failing
+    check wins), with exactly the comparisons `Book/Validate.lean` (`argTests`, `optionChecks`) evaluates -/
+theorem C07_src_input_checks :
+    (Gen.exitSites.filter (fun s => s.flag = "EXIT_INPUT_ERROR")).map (fun s => (s.msg, s.path)) = [
+    ("Must provide prox_uh input if h is not None", [⟨true, "exit_info", "is", "None"⟩, ⟨true, "h", "is not", "None"⟩, ⟨true, "prox_uh", "is", "None"⟩]),
+    ("Must provide lh input if h is not None", [⟨true, "exit_info", "is", "None"⟩, ⟨true, "h", "is not", "None"⟩, ⟨false, "prox_uh", "is", "None"⟩, ⟨true, "lh", "is", "None"⟩]),
+    ("lh must be strictly positive", [⟨true, "exit_info", "is", "None"⟩, ⟨true, "h", "is not", "None"⟩, ⟨false, "prox_uh", "is", "None"⟩, ⟨false, "lh", "is", "None"⟩, ⟨true, "lh", "<=", "0.0"⟩]),
+    ("npt must be >= n+1 for linear models with inexact interpolation", [⟨true, "exit_info", "is", "None"⟩, ⟨true, "npt", "<", "n + 1"⟩]),
+    ("rhobeg must be strictly positive", [⟨true, "exit_info", "is", "None"⟩, ⟨true, "rhobeg", "<=", "0.0"⟩]),
+    ("rhoend must be strictly positive", [⟨true, "exit_info", "is", "None"⟩, ⟨true, "rhoend", "<=", "0.0"⟩]),
+    ("rhobeg must be > rhoend", [⟨true, "exit_info", "is", "None"⟩, ⟨true, "rhobeg", "<=", "rhoend"⟩]),
+    ("maxfun must be strictly positive", [⟨true, "exit_info", "is", "None"⟩, ⟨true, "maxfun", "<=", "0"⟩]),
+    ("x0 must be a vector", [⟨true, "exit_info", "is", "None"⟩, ⟨true, "np.shape(x0)", "!=", "(n,)"⟩]),
+    ("lower bounds must have same shape as x0", [⟨true, "exit_info", "is", "None"⟩, ⟨true, "np.shape(x0)", "!=", "np.shape(xl)"⟩]),
+    ("upper bounds must have same shape as x0", [⟨true, "exit_info", "is", "None"⟩, ⟨true, "np.shape(x0)", "!=", "np.shape(xu)"⟩]),
+    ("gap between lower and upper must be at least 2*rhobeg", [⟨true, "exit_info", "is", "None"⟩, ⟨true, "np.min(xu - xl)", "<", "2.0 * rhobeg"⟩]),
+    ("<expr> 'Bad parameters: %s' % str(bad_keys)", [⟨true, "exit_info", "is", "None"⟩, ⟨false, "all_ok", "", ""⟩]),
+    ("Safety step while growing: either reduce delta -or- full geom step", [⟨true, "exit_info", "is", "None"⟩, ⟨true, "params('growing.safety.full_geom_step')", "", ""⟩, ⟨true, "params('growing.safety.reduce_delta')", "", ""⟩]),
+    ("Growing: either make J full rank -or- perturb trust region step", [⟨true, "exit_info", "is", "None"⟩, ⟨true, "params('growing.full_rank.use_full_rank_interp')", "", ""⟩, ⟨true, "params('growing.perturb_trust_region_step')", "", ""⟩]),
+    ("Must have exactly one of additive or multiplicative noise estimate", [⟨true, "exit_info", "is", "None"⟩, ⟨true, "params('noise.quit_on_noise_level')", "", ""⟩, ⟨false, "params('noise.multiplicative_noise_level')", "is", "None"⟩, ⟨true, "params('noise.additive_noise_level')", "is not", "None"⟩]),
+    ("Parallel initialisation not yet developed for coordinate initial directions", [⟨true, "exit_info", "is", "None"⟩, ⟨true, "params('init.run_in_parallel')", "", ""⟩, ⟨false, "params('init.random_initial_directions')", "", ""⟩]),
+    ("Growing: if resetting rho, must also reset delta", [⟨true, "exit_info", "is", "None"⟩, ⟨true, "params('growing.reset_rho')", "", ""⟩, ⟨false, "params('growing.reset_delta')", "", ""⟩])] := by
+  decide +kernel
+
+/-- input errors are created by `solve` only, and nowhere else is a check skipped by a missing `exit_info is None` -/
+theorem C07_src_input_checks_guarded : ∀ s ∈ Gen.exitSites, s.flag = "EXIT_INPUT_ERROR" →
+    s.func = "solver.py:solve" ∧ s.path.head? = some ⟨true, "exit_info", "is", "None"⟩ := by
   decide +kernel
 
 end C07
